@@ -7,6 +7,7 @@ import (
 
 	secp256k1 "gitlab.com/yawning/secp256k1-voi"
 	"gitlab.com/yawning/secp256k1-voi/secec"
+	"gitlab.com/yawning/secp256k1-voi/secec/bitcoin"
 
 	"verifharness/gen"
 	"verifharness/mon"
@@ -49,6 +50,7 @@ func runC10(r *mon.Run) {
 	specials := specialPoints()
 
 	// --- ECDH symmetric and exact ---------------------------------------------------------
+	r.Require("c10:consistency:odd-y-key", "c10:consistency:even-y-key")
 	r.Each("c10/ecdh", r.N(1500, 60000), func(w *mon.W, i int) {
 		rng := w.Rng
 		a, ca := keyValue(rng)
@@ -90,6 +92,39 @@ func runC10(r *mon.Run) {
 		}
 		if !bytes.Equal(ka.Bytes(), b32(a)) || !bytes.Equal(pubB.Bytes(), oracle.EncodeUncompressed(B)) {
 			w.Fail("c10/ecdh:operand", "ECDH modified a key", "a", hb(a), "b", hb(b))
+		}
+		// A key's encodings always equal the encodings of the point it holds - also after
+		// the key object has been used the way other parts of the API use it (Schnorr key
+		// derivation reads Point(); callers mutate what they are handed).
+		{
+			hp := pubB.Point()
+			hp.Negate(hp)
+			hp.Add(hp, hp)
+			_ = bitcoin.NewSchnorrPublicKeyFromECDSA(pubB)
+			_ = bitcoin.NewSchnorrPrivateKeyFromECDSA(kb)
+			_ = bitcoin.NewSchnorrPrivateKeyFromECDSA(ka)
+			hs := kb.Scalar()
+			hs.Add(hs, hs)
+			for _, kk := range []struct {
+				name string
+				pk   *secec.PublicKey
+				pt   *oracle.Pt
+			}{{"peer key", pubB, B}, {"PublicKey() of the private key b", kb.PublicKey(), B}, {"PublicKey() of the private key a", ka.PublicKey(), A}} {
+				if msg := expectPoint(kk.pk.Point(), kk.pt); msg != "" || !bytes.Equal(kk.pk.Bytes(), oracle.EncodeUncompressed(kk.pt)) || !bytes.Equal(kk.pk.CompressedBytes(), oracle.EncodeCompressed(kk.pt)) {
+					w.Fail("c10/key-consistency", fmt.Sprintf("%s: after Schnorr key derivation from it and caller mutation of handed-out values, Point() [%s] / Bytes() %x / CompressedBytes() %x no longer all denote the key's point %v", kk.name, msg, kk.pk.Bytes(), kk.pk.CompressedBytes(), kk.pt), "a", hb(a), "b", hb(b))
+				}
+			}
+			if !bytes.Equal(kb.Scalar().Bytes(), b32(b)) || !bytes.Equal(kb.Bytes(), b32(b)) {
+				w.Fail("c10/key-consistency:private", "the private key no longer holds its scalar after the caller mutated a handed-out Scalar()", "b", hb(b))
+			}
+			if s4, e4 := ka.ECDH(pubB); e4 != nil || !bytes.Equal(s4, want) {
+				w.Fail("c10/ecdh:after-use", fmt.Sprintf("ECDH(a,B) = %x err=%v after the keys were used for Schnorr derivation, expected %x", s4, e4, want), "a", hb(a), "b", hb(b))
+			}
+			if B.Y.Bit(0) == 1 {
+				w.Class("c10:consistency:odd-y-key")
+			} else {
+				w.Class("c10:consistency:even-y-key")
+			}
 		}
 		// peer with unknown discrete log and unusual coordinates
 		if i%5 == 0 {
